@@ -39,7 +39,8 @@ COLORS = ["red", "#123456", "rgb(10,20,30)", "blue", "#abc", "none", None, "#00f
 T_MUTS = ["imul", "imul_str", "xf_post_scale", "xf_pre_translate", "xf_attr", "xf_reset", "xf_setitem"]
 G_MUTS = ["fill_red", "fill_opacity", "stroke_green", "stroke_opacity", "sw", "fill_rebind", "stroke_rebind", "fill_value"]
 E_MUTS = ["set", "values_item", "id"]
-PATH_MUTS = ["reify", "seg_end_x", "seg_start_y", "seg_ctrl", "seg_imul", "append", "insert", "setitem", "delitem", "iadd_str", "reverse", "seg_end_rebind"]
+PATH_MUTS = ["reify", "seg_end_x", "seg_start_y", "seg_ctrl", "seg_imul", "append", "insert", "setitem", "delitem", "iadd_str", "reverse", "seg_end_rebind", "subpath_imul", "subpath_reverse", "subpath_seg"]
+WARM = ["d", "bbox", "length", "count_subpaths", "subpath", "eq", "segments", "repr"]
 SHAPE_MUTS = ["reify", "attr"]
 POLY_MUTS = ["pt_x", "pts_append", "pts_del", "pt_imul", "pt_rebind"]
 GROUP_MUTS = ["g_append", "g_del", "g_child_imul", "g_child_fill", "g_child_attr", "g_child_reify", "g_child_set", "g_child_seg", "g_nested"]
@@ -146,11 +147,17 @@ def generate(seed, index, tier):
     elif deriv in ("add_str", "radd_str"):
         case["str2"] = gp.render(gp.gen_cmds(ch, ch.int(1, 3), mag=100.0, leading_move=deriv == "radd_str", allow_zc=False, arc_zero=False), 0)
     case["twice"] = bool(deriv in INDEPENDENT and ch.coin(0.25))
+    # observers that touched the source before it is derived from (lazily filled caches), or none at all
+    case["warm"] = [ch.choice(WARM) for _ in range(ch.int(1, 3))] if ch.coin(0.5) else []
+    # histories that only ever mutate the result: the source can then be compared with an untouched twin
+    case["only_b"] = bool(deriv in INDEPENDENT and ch.coin(0.35))
     nm = ch.int(1, 6)
     ms = []
     bkind = result_kind(kind, deriv)
     for _ in range(nm):
         side = ch.choice(["A", "B", "B", "A", "A2"]) if "spec2" in case else ch.choice(["A", "B"])
+        if case["only_b"]:
+            side = "B"
         tk = kind if side == "A" else (case["spec2"]["kind"] if side == "A2" else bkind)
         names = KIND_TABLE.get(tk, (None, []))[1]
         if not names:
@@ -487,11 +494,12 @@ def derive(se, case, x, x2):
         z.reify()
         return abs(x), ("snap", z)
     if d == "PathOf":
+        y = se.Path(x)  # first: nothing may have asked x for its outline before (a cold source)
         if isinstance(x, se.Subpath):
             want = {"segments": [snap(se, s) for s in x], "of": x._path}
         else:
             want = {"segments": [snap(se, s) for s in x.segments(transformed=False)], "of": x}
-        return se.Path(x), ("path-of", want)
+        return y, ("path-of", want)
     if d == "add":
         return x + x2, (None, None)
     if d == "sub":
@@ -667,6 +675,19 @@ def mutate(se, o, name, k, v):
         if len(o) == 0:
             return False
         return _mut_seg(se, o[_idx(k, len(o))], name[4:], k, v, Mx)
+    elif name in ("subpath_imul", "subpath_reverse", "subpath_seg"):
+        n = o.count_subpaths()
+        if n == 0:
+            return False
+        sub = o.subpath(_idx(k, n))
+        if name == "subpath_imul":
+            sub *= Mx
+        elif name == "subpath_reverse":
+            sub.reverse()
+        else:
+            if len(sub) == 0 or sub[0].end is None:
+                return False
+            sub[0].end.x = v
     elif name == "append":
         o.append(se.Line(se.Point(v, 0), se.Point(v, v)))
     elif name == "insert":
@@ -846,6 +867,16 @@ def execute(case, se, out, trace):
         out.count("skip:build-raises")
         trace.ev("skip-build", type(e).__name__)
         return
+    x_twin = None
+    if case.get("only_b"):
+        try:
+            x_twin = build(se, case["spec"])  # never touched until the end
+        except Exception:
+            x_twin = None
+    for w in case.get("warm", []):
+        _warm(se, x, w)
+        out.count("op:warm-" + w)
+    cold = x_twin is not None and not case.get("warm")
     a_roots = [x] + ([x2] if x2 is not None else [])
     frozen = _copy.deepcopy(a_roots)
     before = side_snap(se, a_roots)
@@ -868,7 +899,7 @@ def execute(case, se, out, trace):
         r = diff(_strip_sub(snap(se, x)), _strip_sub(snap(se, y)))
         if r:
             raise V("value", [kind, deriv], "%s(%s) differs from its source: %s" % (deriv, kind, r))
-        if kind in _EQ_KINDS and _eq(y, x) is False:
+        if not cold and kind in _EQ_KINDS and _eq(y, x) is False:
             raise V("value", [kind, deriv, "eq"], "%s(%s) == source is False" % (deriv, kind))
     elif refkind == "same-children":
         sx, sy = snap(se, x), snap(se, y)
@@ -980,7 +1011,7 @@ def execute(case, se, out, trace):
             if r:
                 raise V("aliasing", [kind, deriv, "B->A", name], "%s of %s: %s on the result changed the source: %s" % (deriv, kind, name, r))
             for fr, cur in zip(frozen, a_roots):
-                if _kind_of(se, cur) in _EQ_KINDS and _eq(cur, fr) is False:
+                if not cold and _kind_of(se, cur) in _EQ_KINDS and _eq(cur, fr) is False:
                     raise V("aliasing", [kind, deriv, "B->A", name, "eq"], "%s of %s: after %s on the result the source no longer equals its frozen copy" % (deriv, kind, name))
         else:
             r = diff(b0, b1)
@@ -996,9 +1027,63 @@ def execute(case, se, out, trace):
                     if r:
                         raise V("aliasing", [kind, deriv, "A->A2", name], "%s on the first operand changed the second: %s" % (name, r))
             frozen = _copy.deepcopy(a_roots)
+    if x_twin is not None and steps:
+        # only the result was ever mutated: what the source draws must be what an untouched twin of it draws
+        dx, dt = _deep(se, x), _deep(se, x_twin)
+        r = diff(dx, dt, tol=1e-12)
+        if r:
+            raise V("aliasing", [kind, deriv, "B->A", "drawn-geometry", "cold" if cold else "warm"], "%s of %s: after mutating only the result, what the source draws differs from an untouched twin built from the same data: %s" % (deriv, kind, r))
+        out.count("probe:source-vs-twin-compared")
+        if cold:
+            out.count("probe:cold-source-compared")
     if steps:
         out.count("probe:histories-with-mutations")
     out.count("events", steps + 1)
+
+
+def _warm(se, x, w):
+    try:
+        if w == "d":
+            x.d()
+        elif w == "bbox":
+            x.bbox()
+        elif w == "length":
+            x.length(error=1e-2, min_depth=2)
+        elif w == "count_subpaths":
+            x.count_subpaths()
+        elif w == "subpath":
+            x.subpath(0)
+        elif w == "eq":
+            x == x
+        elif w == "segments":
+            x.segments()
+        else:
+            repr(x)
+    except Exception:
+        pass
+
+
+def _deep(se, o, depth=0):
+    """What the object draws, through its public observers (these may fill caches: only used at the very end)."""
+    if isinstance(o, se.Subpath):
+        return ("Sub", _try(lambda: o.d()), _try(lambda: se.Path(o).bbox()))
+    if isinstance(o, se.Shape):
+        return (type(o).__name__, _try(lambda: o.d()), _try(lambda: o.bbox()), _try(lambda: o.d(transformed=False)), _try(lambda: [ob.seg_snap(sg) for sg in o.segments()]))
+    if isinstance(o, se.Text):
+        return ("Text", _try(lambda: o.bbox()), snap(se, o))
+    if isinstance(o, list) and isinstance(o, se.SVGElement) and depth < 6:
+        return (type(o).__name__, [_deep(se, c, depth + 1) for c in o], _try(lambda: o.bbox()))
+    return snap(se, o)
+
+
+def _try(fn):
+    try:
+        r = fn()
+    except Exception as e:
+        return ("raises", type(e).__name__)
+    if isinstance(r, tuple):
+        return list(r)
+    return r
 
 
 def _strip_sub(s):
